@@ -2,9 +2,9 @@
 
 import os
 
-# which repairs the checked tree contains: "pinned" (before a779db8), "fixed_F2" (a779db8 = fixes/C08-F2.diff applied; the tree
-# as it is now), "repaired" (F2 and the candidate fixes/C08-F3.diff).
-FX = os.environ.get("VERIF_C08_FX", "fixed_F2")
+# which repairs the checked tree contains: "pinned" (before a779db8), "fixed_F2" (a779db8 = fixes/C08-F2.diff applied),
+# "repaired" (a779db8 and 72ba5d4 = fixes/C08-F3.diff; the tree as it is now).
+FX = os.environ.get("VERIF_C08_FX", "repaired")
 
 P = {
     "id": "C08",
@@ -12,7 +12,7 @@ P = {
     "coq_targets": ["Properties/C08.vo", "Run/Eval_GoUrl.vo", "Run/Eval_C08.vo"],
     "theorems_module": "Properties.C08",
     "theorems": ["C08_reencoding_invariant", "C08_reencoding_invariant_parametric", "C08_F1_refuted",
-                 "C08_F3_refuted", "C08_F2_pinned_refuted", "C08_reencoding_invariant_nonvacuous",
+                 "C08_F3_pinned_refuted", "C08_F2_pinned_refuted", "C08_reencoding_invariant_nonvacuous",
                  "C08_malformed_rejected", "C08_reenc_checked_by_evaluator", "C08_off_rejects_encoded_slash",
                  "C08_off_answers_precondition", "C08_off_rejects_encoded_slash_parametric", "C08_F4_off_refuted",
                  "C08_F2_off_pinned_refuted", "C08_off_captures_decoded", "C08_capture_decoding",
@@ -23,7 +23,7 @@ P = {
         "overlay": {"internal/rules/zz_verif_c08_test.go": "c08/c08_test.go"},
         "eval_module": "Run.Eval_C08", "check_term": "check " + FX,
         "n_quick": 1200, "n_thorough": 30000, "shard": 150,
-        "findings": {1: "C08-F1", 3: "C08-F3", 4: "C08-F4", 5: "C08-F5"},
+        "findings": {1: "C08-F1", 4: "C08-F4", 5: "C08-F5"},
     }, {
         "name": "units", "pkg": "./internal/rules", "test": "TestVerifC08Units",
         "overlay": {"internal/rules/zz_verif_c08_test.go": "c08/c08_test.go"},
@@ -60,17 +60,16 @@ P = {
     "level_text": "Proof (kernel-checked, no axioms) over a Gallina model of net/http target parsing, extractURL, FindRule's "
                   "choice of the raw path, the route lookup (segment-wise), pathParamMatcher and ruleImpl.Execute: for ALL "
                   "rule sets, default-rule settings, request paths and ALL equivalent re-encodings, the answer kind, the rule "
-                  "and the captured values are unchanged outside the guards of findings C08-F1/F3; a path with %2F/%2f is "
+                  "and the captured values are unchanged outside the guard of finding C08-F1; a path with %2F/%2f is "
                   "never accepted by an `off` rule or the default rule outside C08-F4; captured values are the decoded pieces of the path "
                   "(`no_decode`: all but the encoded slash; place-holder trick proved correct) and the upstream raw path is kept / dropped, outside C08-F4/F5.  Each guard has a `_refuted` witness.  The model is tied "
                   "to the code by three differential streams per run (~1200 request pairs through the real server/repository/"
                   "executor, ~1500 unescape units, ~3000 net/url cases; 30000/30000/40000 in the thorough tier).",
     "level_note": "Trusted: Coq kernel/vm_compute; the correspondence harness (generator, stub authenticator, Gallina rendering); "
                   "the radix tree abstracted to a segment-wise search (C02/C03 own the tree), generator restricted to inputs "
-                  "exact path_params only.  Open findings C08-F1/F3/F4/F5 are guarded, observed on every run from the driver's corpus "
-                  "and documented by `_refuted` theorems; C08-F2 was repaired by fix: commit a779db8 (theorems are stated for the "
-                  "repaired tree, the pinned behaviour is kept as `_pinned_refuted`); the model is parametric in the repairs "
-                  "(candidate fixes/C08-F3.diff).",
+                  "exact path_params only.  Open findings C08-F1/F4/F5 are guarded, observed on every run from the driver's corpus "
+                  "and documented by `_refuted` theorems; C08-F2 and C08-F3 were repaired by fix: commits a779db8 and 72ba5d4 (theorems are stated "
+                  "for the repaired tree, the earlier behaviour is kept as `_pinned_refuted`); the model is parametric in the repairs.",
     "assumptions": ["requests reach heimdall through net/http (HTTP/1.1 origin-form target); the Envoy entry point, where "
                     "RawPath is never set, is C03's/C13's subject",
                     "every rule of the modelled rule sets has backtracking enabled (C02-F1/C14 cover the flag)",
